@@ -520,6 +520,20 @@ def _r5(ctx: Ctx, m: pf.Module) -> None:
     sets = af.stmt_nodes(c5, lambda n: any(pf.dotted(c.func) == 'self._done_event.set' for c in pf.node_calls(n)))
     ok = bool(nones) and bool(sets) and af.must_pass(c5, Hn, lambda n: n is c5.exit, lambda n: any(n is x for x in nones), first_label='F') is None \
         and af.must_pass(c5, Hn, lambda n: n is c5.exit, lambda n: any(n is x for x in sets), first_label='F') is None
+    # the cancelled tasks are awaited before the pool is reported done
+    consw = f'{F}::{OBG}._shutdown::awaits the cancelled tasks'
+    aws = [n for n in af.stmt_nodes(c5, pf.node_has_await) if any(isinstance(a, ast.Await) and pf.call_name(a) in ('asyncio.wait', 'asyncio.gather') for a in ast.walk(n.ast))]
+    if aws:
+        okw = bool(sets) and all(c5.dominated_by(sx, lambda n: any(n is a for a in aws) or (n.kind == 'test' and af.direct(c5, n, aws[0]))) for sx in sets) \
+            and all(af.direct(c5, Hn, a, 'F') for a in aws)
+        ctx.need(okw, f'{OBG}._shutdown: an await of the cancelled tasks exists but its position relative to the loop / _done_event.set() is not recognised')
+        ctx.ok('R5', consw, 'awaited before _done_event.set()')
+    else:
+        ex_aw = [a for a in _own_nodes(m.func(f'{OBG}.__aexit__')) if isinstance(a, ast.Await) and pf.call_name(a) in ('asyncio.wait', 'asyncio.gather')]
+        ctx.need(not ex_aw, f'{OBG}.__aexit__ awaits tasks itself (idiom not recognised)')
+        ctx.bad('R5', consw, '_shutdown cancels the pending tasks, sets self._pending = None and _done_event at once, but never awaits the cancelled tasks (it contains no await '
+                'although its docstring says "wait for them to complete"): __aexit__ wakes up, finds `self._pending` falsy and raises while cancelled background tasks are '
+                'still unwinding (their finally / async-with clean-up runs after the context manager has exited)', m.path, sd.lineno)
     ctx.check(ok, 'R5', f'{F}::{OBG}._shutdown::marks the pool shut down', '_shutdown does not set self._pending = None and _done_event after cancelling: call() keeps accepting '
               'tasks / __aexit__ never wakes up', m.path, sd.lineno)
 
@@ -641,7 +655,7 @@ def run(ctx: Ctx) -> None:
     ctx.rule('R2', 'every parent await of gather/wait/_done_event.wait is inside `async with WithoutSemaphore(<sema>)`', 6)
     ctx.rule('R3', 'tasks built by an order-preserving comprehension over *pfs; results returned by gather(*tasks); wrappers forward *pfs and flags', 9)
     ctx.rule('R4', 'return_exceptions: catch-all wrapper returning pairs; cancel_on_error: on error every unfinished task is cancelled (no early exit) and all are awaited', 7)
-    ctx.rule('R5', 'OnlineBoundedGather2: register/clear in call, deregister/signal in run_and_cleanup, first exception kept, __aexit__ leaves only when nothing is pending', 13)
+    ctx.rule('R5', 'OnlineBoundedGather2: register/clear in call, deregister/signal in run_and_cleanup, first exception kept, __aexit__ leaves only when nothing is pending; shutdown awaits what it cancels', 14)
     ctx.rule('R6', 'WithoutSemaphore releases once on enter and re-acquires on every exit', 2)
     ctx.rule('R7', 'a semaphore handed to bounded_gather2* from this file is a parameter or held by the caller', 3)
     ctx.assume('asyncio.Semaphore.release() is unbounded; asyncio.gather propagates the first exception as soon as it happens and does not cancel the other awaitables')
